@@ -632,4 +632,133 @@ func checkC20(c *Ctx, r *Report) {
 			}
 		}
 	}
+
+	// ---- R7 ---------------------------------------------------------------
+	r7 := r.Rule("C20-R7", "E7b/E1", 8, "window bookkeeping: every recorded outcome is appended (or resets a blocked counter); successes goes up exactly for a success; the oldest outcome is dropped exactly when the window holds more than N; updateState always sets the state, Probing only below N outcomes and Allowed only with a full window")
+	cm20 := func(n string) string { return "(*" + ctrT + ")." + n }
+	lenRes := func(v ssa.Value) bool {
+		call, _ := resolveLoad(strip2(v)).(*ssa.Call)
+		return call != nil && calleeKey(call) == "builtin.len" && isLoadOfField(ctrT+".dialResults")(strip2(call.Call.Args[0]))
+	}
+	isN := func(v ssa.Value) bool { return isLoadOfField(ctrT + ".N")(strip2(v)) }
+	if f := r7.need(cm20("RecordResult")); f != nil {
+		sp := f.Params[1]
+		isSucc := func(v ssa.Value) bool {
+			v = resolveLoad(strip2(v))
+			return v == ssa.Value(sp) || isParamCellLoad(c, v, sp)
+		}
+		resets := findInstrs(f, callPred(cm20("reset")))
+		appends := findInstrs(f, func(in ssa.Instruction) bool {
+			st, ok := in.(*ssa.Store)
+			if !ok || !isFieldWrite(in, ctrT+".dialResults") {
+				return false
+			}
+			call, isC := resolveLoad(strip2(st.Val)).(*ssa.Call)
+			if !isC || calleeKey(call) != "builtin.append" || !isLoadOfField(ctrT+".dialResults")(strip2(call.Call.Args[0])) {
+				return false
+			}
+			return derivesFrom(call.Call.Args[1], isSucc) || carriesErr(call, isSucc)
+		})
+		r7.mustPass(f, cm20("RecordResult")+": the outcome is appended to the window (or resets a blocked counter)", &Cut{Fn: f, Target: isRetInstr, Sep: inSet(append(append([]ssa.Instruction{}, appends...), resets...))}, len(appends))
+		step := func(op token.Token) []ssa.Instruction {
+			return findInstrs(f, func(in ssa.Instruction) bool {
+				st, ok := in.(*ssa.Store)
+				if !ok || !isFieldWrite(in, ctrT+".successes") {
+					return false
+				}
+				bo, isB := resolveLoad(strip(st.Val)).(*ssa.BinOp)
+				if !isB || !isLoadOfField(ctrT+".successes")(strip2(bo.X)) {
+					return false
+				}
+				k, isC := constInt(bo.Y)
+				return isC && ((bo.Op == op && k == 1) || (bo.Op != op && (bo.Op == token.ADD || bo.Op == token.SUB) && k == -1))
+			})
+		}
+		incs := step(token.ADD)
+		onSucc := edgeBool(isSucc, true)
+		r7.guard(f, "successes++", incs, "the dial succeeded", onSucc, nil)
+		var from []CFGEdge
+		for _, b := range blocksDeep(f) {
+			for si := range b.Succs {
+				if onSucc(b, si) {
+					from = append(from, CFGEdge{b, si})
+				}
+			}
+		}
+		r7.mustPass(f, cm20("RecordResult")+": a success is counted (or resets a blocked counter)", &Cut{Fn: f, FromEdges: from, Target: isRetInstr, Sep: inSet(append(append([]ssa.Instruction{}, incs...), resets...))}, len(from))
+		evicts := findInstrs(f, func(in ssa.Instruction) bool {
+			st, ok := in.(*ssa.Store)
+			if !ok || !isFieldWrite(in, ctrT+".dialResults") {
+				return false
+			}
+			sl, isS := resolveLoad(strip2(st.Val)).(*ssa.Slice)
+			if !isS || sl.Low == nil || !isLoadOfField(ctrT+".dialResults")(strip2(sl.X)) {
+				return false
+			}
+			k, isC := constInt(sl.Low)
+			return isC && k == 1 && sl.High == nil
+		})
+		over := edgeExcl(lenRes, isN, ordLT, ordEQ)
+		r7.guard(f, "drop the oldest outcome", evicts, "the window holds more than N", over, nil)
+		var fromOver []CFGEdge
+		for _, b := range blocksDeep(f) {
+			for si := range b.Succs {
+				if over(b, si) {
+					fromOver = append(fromOver, CFGEdge{b, si})
+				}
+			}
+		}
+		r7.mustPass(f, cm20("RecordResult")+": a window of more than N outcomes loses its oldest", &Cut{Fn: f, FromEdges: fromOver, Target: isRetInstr, Sep: inSet(evicts)}, len(fromOver))
+		// the comparison is exactly `> N`: at N outcomes nothing is dropped
+		nOver := 0
+		for _, b := range blocksDeep(f) {
+			if ifi := ifOf(b); ifi != nil {
+				tab := condTable(ifi.Cond, lenRes, isN)
+				if tab[ordLT] != triUnknown && tab[ordEQ] != triUnknown && tab[ordGT] != triUnknown {
+					nOver++
+					r7.Check(tab[ordEQ] == tab[ordLT] && tab[ordGT] != tab[ordEQ], cm20("RecordResult")+": the window test separates `more than N` from the rest", instrPos(ifi), 1, "", "the window is one outcome shorter (or longer) than configured", fmt.Sprint(tab))
+				}
+			}
+		}
+		r7.Check(len(fromOver) >= 1 && len(evicts) >= 1 && nOver >= 1, cm20("RecordResult")+": window test and eviction", f.Pos(), nOver, "", "", "")
+		decs := step(token.SUB)
+		r7.guard(f, "successes--", decs, "the window holds more than N", over, nil)
+		r7.Check(len(decs) >= 1, cm20("RecordResult")+": an evicted success is uncounted", f.Pos(), len(decs), "", "successes only grows: a black hole is never detected once enough dials succeeded", "")
+	}
+	if f := r7.need(cm20("updateState")); f != nil {
+		sets := findInstrs(f, fieldWritePred(ctrT+".state"))
+		r7.mustPass(f, cm20("updateState")+": the state is set on every path", &Cut{Fn: f, Target: isRetInstr, Sep: inSet(sets)}, len(sets))
+		val := func(k int64) []ssa.Instruction {
+			var out []ssa.Instruction
+			for _, in := range sets {
+				if st, ok := in.(*ssa.Store); ok {
+					if kv, isC := constInt(st.Val); isC && kv == k {
+						out = append(out, in)
+					}
+				}
+			}
+			return out
+		}
+		probing, allowed := constIntObj(c, swarmP, "blackHoleStateProbing"), constIntObj(c, swarmP, "blackHoleStateAllowed")
+		if p := val(probing); len(p) > 0 {
+			r7.guard(f, "state = Probing", p, "fewer than N outcomes", edgeExcl(lenRes, isN, ordEQ, ordGT), nil)
+		}
+		if a := val(allowed); len(a) > 0 {
+			r7.guard(f, "state = Allowed", a, "the window is full", edgeExcl(lenRes, isN, ordLT), nil)
+		}
+		var fromShort []CFGEdge
+		short := edgeExcl(lenRes, isN, ordEQ, ordGT)
+		for _, b := range blocksDeep(f) {
+			for si := range b.Succs {
+				if short(b, si) {
+					fromShort = append(fromShort, CFGEdge{b, si})
+				}
+			}
+		}
+		if len(fromShort) > 0 && len(val(probing)) > 0 {
+			r7.mustPass(f, cm20("updateState")+": below N outcomes the counter probes", &Cut{Fn: f, FromEdges: fromShort, Target: isRetInstr, Sep: inSet(val(probing))}, len(fromShort))
+		} else {
+			r7.OK(cm20("updateState")+": below N outcomes the counter probes", f.Pos(), 1, "not decided: the states are not stored as constants behind a `len(dialResults) < N` test")
+		}
+	}
 }
